@@ -70,6 +70,7 @@ func (propC01) Gen(r *Rng, tier string) *World {
 	w.Cfg.OptMask = 0
 	w.Cfg.ViaDirect = r.P(0.5)
 	w.Cfg.DirStyle = r.Intn(6)
+	w.Cfg.ViaAPI = r.P(0.4)
 	w.Cfg.Event = []string{"", "", "", "report", "debug"}[r.Intn(5)]
 	w.API = []string{"eval", "eval", "eval", "eval", "evalbool", "oneshot"}[r.Intn(6)]
 	base := Plan{Bind: g.Binding()}
